@@ -15,12 +15,14 @@ type GenEnv struct {
 	// OffSpecLengths: fixed-size types are sometimes declared LONGER than their natural size (outside RFC 7011,
 	// but accepted by the decoders): only for checks whose oracle does not interpret the octets itself
 	OffSpecLengths bool
-	// NoLongFields keeps fixed-length fields at 40 octets or less (for rigs whose datagrams must fit a 1500-octet
-	// receive buffer to be acknowledged)
-	NoLongFields bool
-	iana           [][]Elem // by type
-	ent            [][]Elem
-	ianaAll        []Elem
+	// Big switches on the large shapes: fixed-length fields of 255..9000 octets (one per template), templates with
+	// 31..300 fields, data sets with 31..300 short records, messages with 31..100 small data sets, variable-length
+	// values of 1000..8192 octets. Only for checks whose runner treats a message that does not fit a datagram as
+	// outside the domain and whose oracle does not need every message to fit a 1500-octet receive buffer.
+	Big     bool
+	iana    [][]Elem // by type
+	ent     [][]Elem
+	ianaAll []Elem
 }
 
 func NewGenEnv(proto string) *GenEnv { return NewGenEnvFrom(proto, Elements()) }
@@ -83,7 +85,7 @@ func (e *GenEnv) GenField(t *rapid.T) Field {
 		f.Len = VarLen
 	default:
 		f.Len = uint16(rapid.OneOf(rapid.IntRange(0, 8), rapid.IntRange(0, 40)).Draw(t, "flen"))
-		if !e.NoLongFields && rapid.IntRange(0, 23).Draw(t, "longfield") == 0 {
+		if e.Big && rapid.IntRange(0, 23).Draw(t, "longfield") == 0 {
 			// long fixed-length octet/string fields (packet sections, descriptions): lengths around the 8-, 12-
 			// and 13-bit marks
 			f.Len = uint16(rapid.SampledFrom([]int{255, 256, 257, 1000, 4095, 4096, 4097, 5000, 8191, 8192, 9000}).Draw(t, "longlen"))
@@ -97,6 +99,10 @@ func (e *GenEnv) GenTemplate(t *rapid.T, id uint16) Template {
 	tp := Template{ID: id}
 	tp.Options = rapid.IntRange(0, 3).Draw(t, "options") == 0
 	nf := rapid.OneOf(rapid.IntRange(1, 3), rapid.IntRange(1, 12)).Draw(t, "nfields")
+	if e.Big && rapid.IntRange(0, 39).Draw(t, "manyfields") == 0 {
+		// many fields: counts around the 6-, 7-, 8- and 9-bit marks
+		nf = rapid.SampledFrom([]int{31, 32, 33, 63, 64, 65, 127, 128, 129, 255, 256, 257, 300}).Draw(t, "nmanyfields")
+	}
 	if tp.Options {
 		lo := 1
 		if e.Proto == "nf9" {
@@ -149,7 +155,9 @@ func GenTemplateID(t *rapid.T) uint16 {
 }
 
 // GenRecord draws the octets of one record.
-func GenRecord(t *rapid.T, tp *Template) Record {
+func GenRecord(t *rapid.T, tp *Template) Record { return genRecord(t, tp, false) }
+
+func genRecord(t *rapid.T, tp *Template, big bool) Record {
 	var r Record
 	hasVar := false
 	for _, f := range tp.All() {
@@ -158,6 +166,9 @@ func GenRecord(t *rapid.T, tp *Template) Record {
 		if f.Len == VarLen {
 			hasVar = true
 			n = rapid.OneOf(rapid.IntRange(0, 12), rapid.SampledFrom([]int{0, 1, 254, 255, 256, 300}), rapid.IntRange(0, 64)).Draw(t, "vlen")
+			if big && rapid.IntRange(0, 99).Draw(t, "vlong") == 0 {
+				n = rapid.SampledFrom([]int{1000, 4095, 4096, 4097, 8192}).Draw(t, "vlonglen")
+			}
 			long = rapid.IntRange(0, 2).Draw(t, "long") == 0
 		}
 		r.Vals = append(r.Vals, GenValue(t, f.Type, n))
@@ -174,12 +185,16 @@ func GenRecord(t *rapid.T, tp *Template) Record {
 func (e *GenEnv) GenDataSet(t *rapid.T, tp *Template, maxRecs int) Set {
 	s := Set{Kind: "data", Tpl: tp}
 	n := rapid.OneOf(rapid.IntRange(1, 3), rapid.IntRange(1, maxRecs)).Draw(t, "nrecs")
+	if e.Big && maxRecs >= 3 && tp.MinRecordLen() <= 24 && rapid.IntRange(0, 39).Draw(t, "manyrecs") == 0 {
+		// many short records: counts around the 6-, 8- and 9-bit marks
+		n = rapid.SampledFrom([]int{31, 32, 33, 63, 64, 65, 127, 128, 255, 256, 257, 300}).Draw(t, "nmanyrecs")
+	}
 	// records of templates with a long field: no more than fit into ~12 KB per set
 	for rl := tp.MinRecordLen(); n > 1 && n*rl > 12000; {
 		n--
 	}
 	for i := 0; i < n; i++ {
-		s.Recs = append(s.Recs, GenRecord(t, tp))
+		s.Recs = append(s.Recs, genRecord(t, tp, e.Big))
 	}
 	maxPad := 7
 	if e.Proto == "nf9" {
@@ -302,6 +317,12 @@ func (e *GenEnv) GenScenario(t *rapid.T, maxSets, maxRecs int) Scenario {
 	avail := append([]Template{}, pre...)
 	pending := e.GenTemplateSets(t, inmsg)
 	nsets := rapid.OneOf(rapid.IntRange(1, 2), rapid.IntRange(1, maxSets)).Draw(t, "ndatasets")
+	recsPerSet := maxRecs
+	if e.Big && maxSets >= 3 && rapid.IntRange(0, 39).Draw(t, "manysets") == 0 {
+		// many small data sets in one message: counts around the 5-, 6- and 7-bit marks
+		nsets = rapid.SampledFrom([]int{31, 32, 33, 63, 64, 65, 100}).Draw(t, "nmanysets")
+		recsPerSet = 2
+	}
 	for i := 0; i < nsets; {
 		if len(pending) > 0 && (len(avail) == 0 || rapid.IntRange(0, 1).Draw(t, "announce") == 1) {
 			s := pending[0]
@@ -312,7 +333,7 @@ func (e *GenEnv) GenScenario(t *rapid.T, maxSets, maxRecs int) Scenario {
 		}
 		tp := avail[rapid.IntRange(0, len(avail)-1).Draw(t, "which")]
 		tpc := tp
-		sc.Main.Sets = append(sc.Main.Sets, e.GenDataSet(t, &tpc, maxRecs))
+		sc.Main.Sets = append(sc.Main.Sets, e.GenDataSet(t, &tpc, recsPerSet))
 		i++
 	}
 	// remaining announcements may trail the data
